@@ -606,7 +606,7 @@ class Interp:
                 m = self.class_members(c)
                 if name in m:
                     v = m[name]
-                    if isinstance(v, tuple) and v[0] == "expr":
+                    if isinstance(v, tuple) and len(v) == 2 and v[0] == "expr":
                         v = self.eval_class_const(c, name, v[1])
                         m[name] = v
                     return v, c
